@@ -15,7 +15,7 @@ RULE = ('evaluate: every token sequence up to the bound over 1 2 .5 7 + - * / \\
         'deeper well-formed expressions, random arbitrary strings for the error clause; extract: every text up to the bound over '
         '"1.+-*/\\() a" x every position 0..len x 3 option sets. Non-trivial = contains an operator or parenthesis (evaluate) / '
         'returned a range (extract); distinct by input string (+position/options)')
-ASSUMPTIONS = ['reference evaluator: unary +/- tightest, then * / \\ (left to right), then + - (left to right), \\ = floor of quotient',
+ASSUMPTIONS = ['reference evaluator: unary +/- tightest, then * / \\ (left to right), then + - (left to right), \\ = floor of quotient; every value is a float (IEEE double: results beyond its range are inf for all operators alike)',
                'chains mixing \\ with * or / without parentheses are outside the statement: only their exception type is checked',
                'a number is digits[.digits] or .digits; "1." is not a documented number form: only the exception type is checked',
                'blanks between and around tokens are accepted',
@@ -140,7 +140,9 @@ def ref_eval(s):
         if k == '/':
             return x / y
         q = x / y
-        return math.floor(q) if math.isfinite(q) else q      # an overflown quotient stays what `/` gives
+        # an overflown quotient stays what `/` gives; the rounded quotient is a float like every other value of an expression (beyond the
+        # float range the four operators give inf: an exact integer here would make `(q+q)/q` differ from `(a/1+a/1)/(a/1)`)
+        return float(math.floor(q)) if math.isfinite(q) else q
 
     undoc = [False]
     if not toks:
@@ -356,6 +358,13 @@ def run_shard(desc, ctx):
             for s in (big + '\\1', '(' + '9' * 400 + '-' + '9' * 400 + ')\\1', big + '/1', big + '*2', '-' + big + '\\3', '1\\' + big, big + '-' + big, '(' + big + '\\1)*0', big + '\\' + big,
                       '1 ', ' 1 ', '1+2  ', '(1 ) ', '1\t', '2*3 \xa0'):
                 check_eval(s, 'eval:intdiv', ctx, api)
+            # quotients near the top of the float range that go on through further arithmetic (an exact integer quotient must not turn the
+            # next float operation into an error)
+            for top in ('1' + '0' * 308, '9' * 308, '17' + '9' * 306, '1' + '0' * 300, '9007199254740993'):
+                q = '(' + top + '\\1)'
+                for s in ('(%s + %s) * .5' % (q, q), q + '*' + q + '*.5', q + '*' + q + '/3', '-' + q + '-' + q + '+.5', q + '*' + q + '*' + q + '-1.5', '(' + q + '+' + q + ')/' + q,
+                          q + '*2*2*2*2*2*2*2*2*2*2*.1', '(' + q + '*' + q + ')\\.5', q + '+.5', '.5*' + q + '*' + q):
+                    check_eval(s, 'eval:intdiv', ctx, api)
             for a in A:
                 for b in B:
                     for s in (a + '\\' + b, '-' + a + '\\' + b, a + '\\-' + b, '(' + a + '+' + a + ')\\' + b, a + ' \\ ' + b + '+1', '-(' + a + '\\' + b + ')', a + '\\' + b + '\\' + b, a + '*10\\(' + b + '*10)'):
